@@ -35,7 +35,7 @@ func c19Scalars() []scalar {
 		{"true", "true"}, {"True", "True"}, {"yes", "yes"}, {"no", "no"}, {"on", "on"}, {"y", "y"}, {"null", "null"}, {"Null", "Null"}, {"tilde", "~"},
 		{"empty", ""}, {"space", " "}, {"date", "2001-01-01"}, {"datetime", "2001-01-01T00:00:00Z"}, {"sexagesimal", "12:30:45"},
 		{"colon", "a: b"}, {"dash-item", "- a"}, {"hash", "#c"}, {"inline-comment", "a #c"}, {"squote", "'"}, {"dquote", "\""}, {"newline", "a\nb"},
-		{"trailing-nl", "a\n"}, {"leading-tab", "\ta"}, {"accent", "é"}, {"cjk", "日本"}, {"u2028", "a b"}, {"emoji", "😀"}, {"gt", ">"}, {"pipe", "|"},
+		{"trailing-nl", "a\n"}, {"leading-tab", "\ta"}, {"accent", "é"}, {"cjk", "日本"}, {"u2028", "a\u2028b"}, {"emoji", "😀"}, {"gt", ">"}, {"pipe", "|"},
 		{"percent", "%"}, {"at", "@"}, {"backtick", "`"}, {"alias", "*a"}, {"anchor", "&a"}, {"tag", "!a"}, {"flow-map", "{a}"}, {"flow-seq", "[a]"},
 		{"inf", ".inf"}, {"nan", ".nan"}, {"dash", "-"}, {"question", "?"}, {"crlf", "a\r\nb"}, {"bigint", "9007199254740993"}, {"neg0", "-0"}, {"underscore-num", "1_000"},
 		{"leading-space", " a"}, {"trailing-space", "a "}, {"backslash", "a\\nb"}, {"nul-escape", "a\\0"}, {"merge", "<<"}, {"doc-sep", "---"}, {"long", long},
